@@ -132,6 +132,13 @@ func StructConfigs(thorough bool, caches []string, formats []string) []*world.Co
 	// failing MakeRoot calls (a class of Store calls or one Marshal call fails) anywhere in the history
 	cs = append(cs, world.WithFlushFaults(world.UintCfg(2, urange(1, 4), 1, f0, "none")))
 	cs = append(cs, world.WithFlushFaults(depth(world.UintCfg(2, urange(1, 4), 1, formats[len(formats)-1], "big"), 6)))
+	// ... and to closure (no depth bound) with a cache on a three-key universe: histories of any length in which
+	// flushes fail half-way, are retried, and later versions return to node contents written before
+	for _, cache := range caches {
+		if cache == "big" {
+			cs = append(cs, world.WithFlushFaults(world.UintCfg(2, ulist(1, 2, 4), 1, f0, "big")))
+		}
+	}
 	return cs
 }
 
